@@ -244,7 +244,10 @@ def ev_redeclare(st):
     aut = st.aut
     aut.declare_variables(x=BASE['x'], b='bool')      # identical: accepted
     for d in (dict(x=(0, 9), y=BASE['y']), dict(y=BASE['y'], x=(0, 9)),
-              dict(b='bool', y=(-9, 1))):
+              dict(b='bool', y=(-9, 1)),
+              # other hints that need the same bits as the declared ones
+              dict(x=(0, 3), b='bool'), dict(b='bool', y=(-2, 1)),
+              dict(x=(1, 2))):
         try:
             aut.declare_variables(**d)
         except (ValueError, AssertionError, TypeError):
@@ -259,6 +262,12 @@ def ev_redeclare(st):
                     f'declare({d}) was accepted, but {v} cannot take the '
                     f'bounds of {h} afterwards: the context kept the old '
                     'declaration without refusing the new one')
+            # ... and what the type-hint queries answer
+            th = aut.add_expr(aut.type_hint_for([v]))
+            if th != aut.add_expr(f'({h[0]} <= {v}) /\\ ({v} <= {h[1]})'):
+                raise AssertionError(
+                    f'declare({d}) was accepted, but type_hint_for({v}) '
+                    f'still answers for another hint than {h}')
             st.decl[v] = h
     return None
 
